@@ -139,7 +139,17 @@ class Ctx:
         logp = os.path.join(self.outdir, "%s.%s.events.ndjson" % (label, profile))
         cmd = [core.binpath("drive", profile)] + [str(a).replace("{out}", logp) for a in drive_args]
         t0 = time.time()
-        r = subprocess.run(cmd, stdout=subprocess.PIPE, stderr=subprocess.PIPE, text=True)
+        # a driver run takes seconds; one that is still running after the limit is stuck inside the code under test (a hang is
+        # an observation too: it is reported like a crash, with the history in which it happened)
+        limit = 300 if self.quick else 3600
+        pr = subprocess.Popen(cmd, stdout=subprocess.PIPE, stderr=subprocess.PIPE, text=True, env=dict(os.environ, RUST_BACKTRACE="0"))
+        try:
+            so, se = pr.communicate(timeout=limit)
+            r = subprocess.CompletedProcess(cmd, pr.returncode, so, se)
+        except subprocess.TimeoutExpired:
+            pr.kill()
+            so, se = pr.communicate()
+            r = subprocess.CompletedProcess(cmd, "hang (killed after %ds)" % limit, so or "", se or "")
         if r.returncode != 0:
             # the driver process died: the code under test aborted / crashed inside the history it had just begun.
             # That is an observation no specification action allows.
